@@ -315,6 +315,24 @@ def build_unit(unit, scratch, outdir):
         own = [b for b in body_parts if not b[0].get("imported_from")]
         imp = [b for b in body_parts if b[0].get("imported_from")]
         body_parts = own + [("SWITCH", None, "}\n\n// ---- imported contracts (external_body) ----\n%s {\n" % import_container, None)] + imp
+    pre_parts = [b for b in body_parts if b[0] != "SWITCH" and b[0].get("container_override")]
+    body_parts = [b for b in body_parts if b[0] == "SWITCH" or not b[0].get("container_override")]
+    if pre_parts:
+        # functions that belong to another type: own impl block, emitted before the main container
+        marker = "\n// ---- functions extracted by span from %s ----\n%s {\n" % (unit.source, unit.container)
+        head, tail = cur.rsplit(marker, 1)
+        cur = head
+        line = cur.count("\n") + 1
+        for spec, f, text, raw in pre_parts:
+            blk = "\n%s {\n" % spec["container_override"]
+            cur += blk
+            line += blk.count("\n")
+            n = text.count("\n")
+            fn_meta.append({"path": spec["path"], "source": spec.get("source", unit.source), "name": spec["path"].split("::")[-1], "mode": spec.get("mode", "verify"), "imported_from": None, "first_line": line, "last_line": line + n, "repo_lines": [f["line"], f["end_line"]], "sha1": hashlib.sha1(raw[f["start"] : f["end"]]).hexdigest()[:12]})
+            cur += text + "}\n"
+            line += n + 1
+        cur += marker + tail
+        line = cur.count("\n") + 1
     for spec, f, text, raw in body_parts:
         if spec == "SWITCH":
             cur += text
@@ -412,7 +430,7 @@ def run_unit(unit, scratch):
     vacuity_failed = False
     stray = []
     # secondary locations: Verus prints the failing clause first and the function body location after; use all `-->`/`:::` lines of a block
-    blocks = re.split(r"\n(?=error)", errtxt)
+    blocks = re.split(r"(?m)^(?=error)", errtxt)
     for b in blocks:
         hm = re.match(r"error(?:\[E\d+\])?: (.*)", b)
         if not hm:
@@ -420,10 +438,15 @@ def run_unit(unit, scratch):
         msg = hm.group(1).strip()
         if msg.startswith("aborting due to"):
             continue
-        lines = [int(x) for x in re.findall(r"(?:-->|:::) [^:\n]+:(\d+):\d+", b)]
-        # also the gutter line numbers of the snippet ("123 |")
-        lines += [int(x) for x in re.findall(r"^\s*(\d+) \|", b, re.M)]
-        owners = [owner(l) for l in lines]
+        # only the error part: Verus appends `note:` sections (trigger choices) that point elsewhere
+        b = re.split(r"(?m)^note:", b)[0]
+        # the primary location (`-->`) decides the owner: the failed ensures/invariant/decreases clause
+        # or, for a precondition, the call site; other locations are a fallback only
+        prim = [int(x) for x in re.findall(r"--> [^:\n]+:(\d+):\d+", b)]
+        rest = [int(x) for x in re.findall(r"::: [^:\n]+:(\d+):\d+", b)] + [int(x) for x in re.findall(r"^\s*(\d+) \|", b, re.M)]
+        owners = [owner(l) for l in prim]
+        if not any(o[0] for o in owners):
+            owners = [owner(l) for l in rest]
         fn_own = [o[1] for o in owners if o[0] == "fn"]
         pr_own = [o[1] for o in owners if o[0] == "probe"]
         if "vacuity_probe" in b:
@@ -433,8 +456,7 @@ def run_unit(unit, scratch):
             probe_failed.add(pr_own[0]["name"])
             continue
         if fn_own:
-            # attribute to the function whose body contains the *last* location (the body), falling back to first
-            per_fn[fn_own[-1]["path"]].append(msg)
+            per_fn[fn_own[0]["path"]].append(msg)
             continue
         stray.append(msg)
     if not vacuity_failed:
@@ -521,7 +543,8 @@ def first_errors(errtxt):
 
 def extract_fn_errors(errtxt, fm):
     out = []
-    for b in re.split(r"\n(?=error)", errtxt):
+    for b in re.split(r"(?m)^(?=error)", errtxt):
+        b = re.split(r"(?m)^note:", b)[0]
         lines = [int(x) for x in re.findall(r"(?:-->|:::) [^:\n]+:(\d+):\d+", b)] + [int(x) for x in re.findall(r"^\s*(\d+) \|", b, re.M)]
         if any(fm["first_line"] <= l <= fm["last_line"] for l in lines):
             out.append(b)
